@@ -5,6 +5,12 @@ VERIF = os.path.dirname(os.path.dirname(os.path.abspath(__file__)))
 props = {json.loads(l)["id"]: json.loads(l) for l in open(os.path.join(VERIF, "properties.jsonl"))}
 
 CHECKS = {
+ "C11": dict(cat="exploration", technique="model-based (stateful) property-based testing: generated event sequences stepped in lock-step against a reference model of the peer state diagram plus history invariants",
+   text="Sequences of up to 40 events (connect, disconnect, refresh/fetch ticks, clock steps at the 8 s / 60 s boundaries, solicited / stale / unsolicited / corrupted proofs, five kinds of last-state announcements, fetch requests) for 1..3 peers; after every event each peer's state must be in the model's allowed set and the invariants I1-I4 (proof only for the outstanding request, proof never discarded by a last-state update, exactly the expired peers disconnected, disconnect leaves nothing but re-queued fetches) must hold.",
+   note="Bounded sequences; honest content taken from a small mined chain so that validity is controlled by construction.", ref="6/C11"),
+ "C01": dict(cat="exploration", technique="property-based mutation testing of honest responses (typed structural mutators + byte-level) against an independent validity predicate and a byte-for-byte trusted-state snapshot",
+   text="The client builds its own request through the real exchange (random FlyClient samples, seeded), the honest SendLastStateProof is computed by the simulated full node and one of 26 structural mutations (optionally re-mined / re-committed so that deeper checks are reached) or a byte-level mutation is delivered in three peer situations. If the trusted state changed the delivered message must satisfy the independent validity predicate; if it does not, the state must be unchanged byte for byte and no bogus header may be served.",
+   note="Trusted base: registry-based predicate V (errs towards valid), honest server model. Exploration over chain x start point x last_n x sample set x mutation; no exhaustiveness.", ref="6/C01"),
  "C07": dict(cat="exploration", technique="stateful property-based testing against a reference model of quorum agreement (invariants over the history: monotone, append-only, quorum-backed, progress, ban)",
    text="Generated peer populations (honest, lone deviators, two colluding groups, different vector lengths) and generated schedules of chunked BlockFilterCheckPoints messages, refresh ticks, connects, disconnects and restarts drive the real handler and finalize_check_points on a real store; after every step the stored vector may only grow, every new final value needs a quorum that agreed on all indices since the previous final one, agreement of a quorum cannot be blocked by fewer than quorum others, contradicting peers are banned.",
    note="Peers proven via mock_prove_state; max_outbound 1..6.", ref="6/C07"),
